@@ -551,10 +551,10 @@ theorem setStorage_bal (cid : Nat) (m : Mod) (s : State) (live : List Live) (G :
       | none => exact h1
       | some r => exact h1
 
-theorem restoreStorage_sb {s : State} {L : List Inst} (h : SB s L) : SB (restoreStorage s) L := by
+theorem restoreStorage_sb {p : Nat} {s : State} {L : List Inst} (h : SB s L) : SB (restoreStorage p s) L := by
   unfold restoreStorage; split <;> exact h
 
-theorem restoreStorage_cur (s : State) : (restoreStorage s).cur = s.cur := (C01.restoreStorage_frame s).cur
+theorem restoreStorage_cur (p : Nat) (s : State) : (restoreStorage p s).cur = s.cur := (C01.restoreStorage_frame p s).cur
 
 theorem provisionContext_bal (cid : Nat) (c : Cfg) (pp : List Nat) (s : State) (G : List Inst)
     (h : SB s G) :
@@ -821,12 +821,12 @@ theorem inv3_step {s : State} (h : Inv3 s) (op : Op) : Inv3 (step s op).1 := by
       subst hctx
       dsimp only
       have hc := C01.cancel_frame ctx.cid ctx.cbs ctx.wkeys ctx.live s1
-      have hrc := restoreStorage_cur (cancel ctx.cid ctx.cbs ctx.wkeys ctx.live s1)
+      have hrc := restoreStorage_cur s.dlogger (cancel ctx.cid ctx.cbs ctx.wkeys ctx.live s1)
       refine ⟨?_, fun ctx' hx => h.cbs ctx' (by
-        have : (restoreStorage (cancel ctx.cid ctx.cbs ctx.wkeys ctx.live s1)).cur = some ctx' := hx
+        have : (restoreStorage _ (cancel ctx.cid ctx.cbs ctx.wkeys ctx.live s1)).cur = some ctx' := hx
         rwa [hrc, hc.cur, hf.cur] at this)⟩
       unfold SB curLive
-      show Bal (restoreStorage (cancel _ _ _ _ s1)).events (match (restoreStorage (cancel _ _ _ _ s1)).cur with | none => [] | some ctx => nq ctx.live) (restoreStorage (cancel _ _ _ _ s1)).nseq
+      show Bal (restoreStorage _ (cancel _ _ _ _ s1)).events (match (restoreStorage _ (cancel _ _ _ _ s1)).cur with | none => [] | some ctx => nq ctx.live) (restoreStorage _ (cancel _ _ _ _ s1)).nseq
       rw [hrc, hc.cur, hf.cur, hcb]
       exact restoreStorage_sb (cancel_all_bal _ _ _ _ _ hsb)
   | stop =>
